@@ -17,6 +17,17 @@ def nrziEnc : Nat → List Nat → List Nat
     let l := if b = 0 then 1 - level else level
     l :: nrziEnc l rest
 
+theorem nrziEnc_lt2 (level : Nat) (hl : level < 2) (l : List Nat) : ∀ x ∈ nrziEnc level l, x < 2 := by
+  induction l generalizing level with
+  | nil => intro x hx; simp [nrziEnc] at hx
+  | cons b rest ih =>
+    intro x hx
+    simp only [nrziEnc, List.mem_cons] at hx
+    have hl' : (if b = 0 then 1 - level else level) < 2 := by split <;> omega
+    rcases hx with rfl | hx
+    · exact hl'
+    · exact ih _ hl' x hx
+
 theorem nrziSpec_length (prev : Nat) (l : List Nat) : (nrziSpec prev l).length = l.length := by
   induction l generalizing prev with
   | nil => rfl
